@@ -29,11 +29,22 @@ func execListDS(l *list.List, o Op) (r Res) {
 	defer recoverRes(&r)
 	k := string(o.Key)
 	switch o.K {
-	case "RPush":
-		_, err := l.RPush(k, o.Vals...)
-		return okRes(err)
-	case "LPush":
-		_, err := l.LPush(k, o.Vals...)
+	case "RPush", "LPush":
+		// the values are passed in a buffer the caller goes on using: with spare capacity, and overwritten after the
+		// call (only the outer slice - the library may keep the element slices it was given, but not the caller's
+		// argument array)
+		buf := make([][]byte, len(o.Vals), len(o.Vals)+3)
+		copy(buf, o.Vals)
+		var err error
+		if o.K == "RPush" {
+			_, err = l.RPush(k, buf...)
+		} else {
+			_, err = l.LPush(k, buf...)
+		}
+		for i := range buf {
+			buf[i] = []byte("\xee-overwritten-by-the-caller")
+		}
+		_ = append(buf, []byte("\xee-appended-by-the-caller"))
 		return okRes(err)
 	case "RPop":
 		return itemRes(l.RPop(k))
@@ -268,7 +279,13 @@ func execSetDS(s *set.Set, o Op) (r Res) {
 	k := string(o.Key)
 	switch o.K {
 	case "SAdd":
-		return okRes(s.SAdd(k, o.Vals...))
+		buf := make([][]byte, len(o.Vals), len(o.Vals)+3)
+		copy(buf, o.Vals)
+		err := s.SAdd(k, buf...)
+		for i := range buf {
+			buf[i] = []byte("\xee-overwritten-by-the-caller")
+		}
+		return okRes(err)
 	case "SRem":
 		return okRes(s.SRem(k, o.Vals...))
 	case "SPop":
@@ -740,6 +757,15 @@ func dsZRandom(c *CaseCtx, n, length int) {
 			o := ops[c.Rng.Intn(len(ops))]
 			if c.Rng.Intn(3) == 0 {
 				o = Op{K: "ZAdd", B: dsB, Key: []byte(zDSKeys[c.Rng.Intn(len(zDSKeys))]), F: zDSScores[c.Rng.Intn(len(zDSScores))], Val: []byte("r")}
+				if ns := m.zsorted(dsB); len(ns) > 0 && c.Rng.Intn(3) == 0 {
+					// nudge an existing member's score (or put it a hair beside another member's)
+					base := ns[c.Rng.Intn(len(ns))].S
+					if base == 0 {
+						base = 1
+					}
+					o.Key = []byte(ns[c.Rng.Intn(len(ns))].K)
+					o.F = base * (1 + []float64{8e-10, -8e-10, 3e-13, 4e-16}[c.Rng.Intn(4)])
+				}
 			}
 			c.fp.add(o.String())
 			if !zStep(c, ss, m, o, "random "+trace) {
